@@ -236,9 +236,12 @@ def edge_free(W, I, st, arrived, expected_b, expected_s, k):
     return z3.And(z3.Or(S_b <= 0, k * S_b < E), z3.Or(S_s <= 0, k * S_s < E))
 
 
-def ob_release(k, released_before, cap=None, light=False, real_kernel=False, pending=False, immature=False, only=None, real_sub=False):
+def ob_release(k, released_before, cap=None, light=False, real_kernel=False, pending=False, immature=False, only=None, real_sub=False,
+               other=True, shape=None):
     def ob(ctx):
-        W = release_world(ctx, k, released_before, cap=cap, real_kernel=real_kernel, pending=pending, immature=immature, real_sub=real_sub)
+        W = release_world(ctx, k, released_before, other=other, cap=cap, real_kernel=real_kernel, pending=pending, immature=immature, real_sub=real_sub)
+        if shape is not None:
+            shape(W)
         I = W.I
         st0 = W.st
         # ghost: RC = still unpaid claims on already released batches of everybody (caller's part explicit)
@@ -366,11 +369,25 @@ def ob_release(k, released_before, cap=None, light=False, real_kernel=False, pen
             ctx.witness('release of %d batch(es) with slashing' % k, st, [arrived < expected_b + expected_s], W.mv)
             ctx.witness('release of %d batch(es) without slashing' % k, st, [no_slash, expected_b + expected_s > 0], W.mv)
         ctx.need_witness('Ok path', nok > 0)
-        if k >= 1:
+        if k >= 1 and shape is None:
             ctx.expect_witness('slashing region', 'with slashing')
             ctx.expect_witness('no-slashing region', 'without slashing')
         ctx.ob.bounds = {'batches': k, 'released_before': released_before}
+        if shape is not None:
+            ctx.ob.bounds['shape'] = shape.__doc__
     return ob
+
+
+def plain_batches(W):
+    """many matured batches of the plainest shape: ids 1..k, every stored rate 1, bSei requests only (symbolic amounts), exactly the
+    expected coins arrived (no slashing), the caller holds a claim in every batch"""
+    st = W.st
+    st.add(W.last_processed == 0)
+    tot = 0
+    for h in W.hs:
+        st.add(h['bsei_wr'] == E, h['stsei_wr'] == E, h['stsei'] == 0, h['w_c']['stsei'] == 0, h['bsei'] <= 10 ** 12)
+        tot = tot + h['bsei']
+    st.add(W.hub_balance - W.prev_hub_balance == tot)
 
 
 def seq_withdraw(W, st0, users):
@@ -499,7 +516,9 @@ OBLIGATIONS = [('kernel_from_subtraction', ob_kernel_from_subtraction), ('kernel
                ('release_k1', ob_release(1, 0, real_kernel=True)), ('release_k1_old1', ob_release(1, 1, real_kernel=True, real_sub=True)),
                ('release_k1_immature', ob_release(1, 0, real_kernel=True, pending=True, immature=True)),
                ('withdraw_k0_old1', ob_release(0, 1, real_kernel=True)), ('release_k2', ob_release(2, 0, light=True)),
-               ('release_k3', ob_release(3, 0, light=True)), ('order_independence', ob_order_frame), ('paid_once', ob_twice)]
+               ('release_k3', ob_release(3, 0, light=True)),
+               ('release_k12_plain', ob_release(12, 0, light=True, other=False, shape=plain_batches,
+                                                only=('release:released', 'release:last', 'release:share', 'release:removed'))), ('order_independence', ob_order_frame), ('paid_once', ob_twice)]
 
 
 def tier_filter(name, tier):
